@@ -445,7 +445,7 @@ theorem TInv.ended {s : TSt} (h : TInv s) (c : Bool) (hin : s.inTx = true) (hf :
 
 theorem TInv.begin {s : TSt} (h : TInv s) :
     TInv { s with inTx := true, mine := [], app := [], ackd := [], unres := [], fate := none,
-                  intent := none, myOff := none } := by
+                  intent := none, myOff := none, known := [] } := by
   refine { eg := h.eg, bad_logged := h.bad_logged, good_sub := h.good_sub, bad_sub := h.bad_sub,
            bad_lt := h.bad_lt, mine_lt := ?_, app_mine := ?_, ackd_app := ?_, fresh := ?_,
            fate_app := ?_, mine_unapp := ?_ }
@@ -711,6 +711,25 @@ theorem tstep_inv (s : TSt) (e : Ev) (s' : TSt) (h : TInv s) (hs : tstep s e = .
         · split at hs
           · cases hs
           · simp only [Except.ok.injEq] at hs; subst hs; exact h
+  | regAck i p =>
+    simp only [tstep] at hs
+    split at hs
+    · simp only [Except.ok.injEq] at hs; subst hs; exact h
+    · split at hs
+      · cases hs
+      · split at hs
+        · cases hs
+        · simp only [Except.ok.injEq] at hs; subst hs
+          exact h.of_eq rfl rfl rfl rfl rfl rfl rfl rfl
+  | produceSend i p =>
+    simp only [tstep] at hs
+    split at hs
+    · simp only [Except.ok.injEq] at hs; subst hs; exact h
+    · split at hs
+      · cases hs
+      · split at hs
+        · cases hs
+        · simp only [Except.ok.injEq] at hs; subst hs; exact h
   | begin i =>
     simp only [tstep] at hs
     split at hs
